@@ -39,7 +39,7 @@ def run(ctx):
                 n_commit += 1
                 batch = Slice(F, b).operand(ct["args"][1])
                 puts = [(pi, pt) for (pi, pt) in calls_matching(b, PUT_RX) if Slice(F, b).operand(pt["args"][0]).seen & batch.seen]
-                idx_puts = [(pi, pt) for (pi, pt) in puts if is_index_value(Slice(F, b).operand(pt["args"][3]).sources)]
+                idx_puts = [(pi, pt) for (pi, pt) in puts if is_index_value(Slice(F, b, through_calls=True).operand(pt["args"][3]).sources)]
                 name = strip_generics(callee_key(ct)).split("::")[-1]
                 ctx.check("C15-a", "%s#commit:%s#carries-applied-index" % (fkey(root), name), bool(idx_puts),
                           "the committed batch also receives the applied index",
